@@ -360,13 +360,13 @@ impl LoadBalancingAlgorithm for PowerOfTwo {
                     second = first.take();
                     first = Some((measure, backend));
                 }
-            } else if first.as_ref().unwrap().0 <= measure && measure < second.as_ref().unwrap().0 {
-                second = Some((measure, backend));
-                // other case: we don't change anything
-            } else {
+            } else if measure < first.as_ref().unwrap().0 {
                 second = first.take();
                 first = Some((measure, backend));
+            } else if measure < second.as_ref().unwrap().0 {
+                second = Some((measure, backend));
             }
+            // other case (at least as loaded as both candidates): we don't change anything
         }
 
         // `first` holds the lighter of the two tracked candidates and `second`
